@@ -15,6 +15,12 @@ theorem Bay.Writes.trans {ok : Nat → Prop} {b b1 b2 : Bay} (h1 : Bay.Writes ok
   | nil => exact h1
   | snoc _ hok hf hw ih => exact .snoc ih hok hf hw
 
+theorem Bay.Writes.length {ok : Nat → Prop} {b b1 : Bay} (h : Bay.Writes ok b b1) :
+    b1.chans.length = b.chans.length := by
+  induction h with
+  | nil => rfl
+  | snoc _ _ _ hw ih => rw [Bay.write_length hw]; exact ih
+
 theorem Chan.ext' {a b : Chan} (h1 : a.isStack = b.isStack) (h2 : a.vals = b.vals)
     (h3 : a.last = b.last) (h4 : a.dirty = b.dirty) (h5 : a.allowDup = b.allowDup)
     (h6 : a.ignoreDup = b.ignoreDup) (h7 : a.dirtyWrite = b.dirtyWrite) : a = b := by
